@@ -245,6 +245,12 @@ def catalog_cases(tier, seed):
         for fam in ch.FAMILIES[:2]:
             for df in ("mat", "mat_nd", "vec"):
                 yield {"shape": list(shape), "fam": fam, "r": 2, "k": 0, "kind": "gen", "form": "choi", "dform": df}
+    # operators that look real to np.allclose, and maps of small overall scale (added after seeded change C05-11)
+    for shape in ((2, 2, 2, 2), (2, 3, 2, 3), (3, 2, 2, 3), (1, 2, 2, 1)):
+        for form in ("pairs", "choi"):
+            for df in ((dims_forms(shape)[:1]) if form == "choi" else ["-"]):
+                yield {"shape": list(shape), "fam": "nearreal", "r": 2, "k": 0, "kind": "gen", "form": form, "dform": df}
+                yield {"shape": list(shape), "fam": "gen", "r": 2, "k": 0, "kind": "gen", "form": form, "dform": df, "extra": "scale"}
     D = dims_alphabet(tier)
     for o, i in sorted(itertools.product(D, repeat=2), key=lambda s: (max(s), sum(s), s)):
         shape = (o, i, o, i)
@@ -258,9 +264,58 @@ def catalog_cases(tier, seed):
                                 yield {"shape": list(shape), "fam": fam, "r": r, "k": k, "kind": kind, "form": form, "dform": df}
 
 
-def catalog_check(case):
+def _nearreal_pairs(case):
+    """Complex operators that LOOK real to np.allclose (imaginary parts 1e-7 of the real parts) - added after seeded change C05-11, which
+    skipped the conjugation whenever np.allclose(M, M.real)."""
+    base = ch.build_map(dict(case, fam="gen"))
+    other = ch.build_map(dict(case, fam="gauss"))
+    return [(a.real + 1e-7j * c.real, b.real + 1e-7j * d.imag) for (a, b), (c, d) in zip(base, other)]
+
+
+def _scale_check(case):
+    """dual_channel(c * Phi) = c * dual_channel(Phi) entry by entry for c = 2^-30 (exact in floating point): the adjoint of a map of small
+    overall scale is not allowed to depend on an absolute threshold."""
+    from toqito.channel_ops import dual_channel
+
     shape = tuple(case["shape"])
-    pairs = ch.build_map(case)
+    o_r, i_r, o_c, i_c = shape
+    pairs = ch.build_map(dict(case, fam="gen"))
+    c = 2.0 ** -30
+    form = case["form"]
+    if form == "choi":
+        J = ch.choi_pairs(pairs)
+        da = dims_arg(shape, case["dform"])
+        big, e1 = call(dual_channel, J.copy(), da)
+        small, e2 = call(dual_channel, (c * J).copy(), da)
+        if e1 is not None or e2 is not None:
+            return viol("dual_channel raised: " + exc_text(e1 or e2), site="dual_channel:choi:exception")
+        big, small = [np.asarray(big)], [np.asarray(small)]
+    else:
+        phi = ch.to_form(pairs, form)
+        phis = ch.to_form([(c * a, b) for a, b in pairs], form)
+        big, e1 = call(dual_channel, phi)
+        small, e2 = call(dual_channel, phis)
+        if e1 is not None or e2 is not None:
+            return viol("dual_channel raised: " + exc_text(e1 or e2), site=f"dual_channel:{form}:exception")
+        bp, _ = ch.pairs_from_result(big)
+        sp, _ = ch.pairs_from_result(small)
+        if len(bp) != len(sp):
+            return viol("dual of the scaled map has a different number of operators", site=f"dual_channel:{form}:scale")
+        big = [np.kron(a, np.conj(b)) for a, b in bp]       # the map is determined by sum_t A_t (x) conj(B_t)
+        small = [np.kron(a, np.conj(b)) for a, b in sp]
+        big, small = [sum(big)], [sum(small)]
+    for B, S in zip(big, small):
+        if B.shape != S.shape or np.abs(S - c * B).max() > 1e-12 * c * max(1.0, np.abs(B).max()):
+            return viol(f"dual_channel(c Phi) != c dual_channel(Phi) for c = 2^-30 ({form} form)", site=f"dual_channel:{form}:scale",
+                        observed=float(np.abs(S - c * B).max()), expected=0.0)
+    return ok(True)
+
+
+def catalog_check(case):
+    if case.get("extra") == "scale":
+        return _scale_check(case)
+    shape = tuple(case["shape"])
+    pairs = _nearreal_pairs(case) if case["fam"] == "nearreal" else ch.build_map(case)
     box = [0]
     res = check_dual(pairs, case["form"], shape, case["dform"], box, second=True)
     if res is not None:
